@@ -9,6 +9,8 @@
 (*        about cid, k in open_ok | open_filled | open_failed | cancel_ok |      *)
 (*        cancel_err                                                            *)
 (*   {"a":"State","post":{cid: kind}}   engine view of every order afterwards    *)
+(*   {"a":"LinkDown",..} / {"a":"LinkDownCount","n":k}  the driver killed the     *)
+(*        exchange task: one account-stream disconnect notice for that exchange   *)
 (*   {"a":"Quiescent"}             the run was left alone long enough: nothing   *)
 (*        may be outstanding and no order may still be in flight                 *)
 (* The execution manager and the exchange client are NOT observed.  Their steps  *)
@@ -85,8 +87,18 @@ TReset == /\ Log[l].a = "Reset"
           /\ sends' = [c \in CID |-> 0] /\ answered' = [r \in {} |-> 0]
           /\ UNCHANGED bad
 
+\* the exchange's execution link was killed by the driver: exactly one disconnect notice must reach
+\* the engine, naming THAT exchange, and its account link (hence global health) must be marked down
+TLinkDown == /\ Log[l].a = "LinkDown"
+             /\ Note(IF Log[l].notice_for_own_exchange /\ Log[l].account_link_down /\ Log[l].global_down
+                     THEN {} ELSE {"link_down_notice"})
+             /\ UNCHANGED vars
+TLinkDownCount == /\ Log[l].a = "LinkDownCount"
+                  /\ Note(IF Log[l].n = 1 THEN {} ELSE {"link_down_count"})
+                  /\ UNCHANGED vars
+
 TNext == /\ l <= Len(Log) /\ l' = l + 1
-         /\ (TReset \/ TSendOpen \/ TSendCancel \/ TProcess \/ TState \/ TQuiescent)
+         /\ (TReset \/ TSendOpen \/ TSendCancel \/ TProcess \/ TState \/ TQuiescent \/ TLinkDown \/ TLinkDownCount)
 TSpec == TInit /\ [][TNext]_tvars
 
 Done == l = Len(Log) + 1 => PrintT(<<"TRACE_END", ToJson(bad)>>)
